@@ -236,7 +236,7 @@ def ZeroizeFqs.addAttribute (self : Bool) (meta_ : Meta) (dws : List DeriveWhere
 
 /-! ## `trait_/zeroize.rs`, `trait_/zeroize_on_drop.rs`: `parse_derive_trait` -/
 
-def zeroizeRoot : MPath := ⟨true, [⟨"zeroize", false⟩]⟩
+def zeroizeRoot : MPath := ⟨true, [⟨"zeroize", false⟩], none⟩
 
 /-- Shared option loop of `Zeroize::parse_derive_trait` and
 `ZeroizeOnDrop::parse_derive_trait` (`isZeroize` selects the `drop` special
